@@ -19,6 +19,7 @@ import os
 import shutil
 import subprocess
 import tempfile
+import warnings
 
 from harness.common import extract
 from harness.common.build import PY, InfraError
@@ -217,7 +218,32 @@ def facts(snap, F):
     F.try_add("asDictCatch", "List String", lambda: lstr(hs(fm()["as_dict"], 0, 2)), "psutil.Process.as_dict: classes replaced by ad_value")
     F.try_add("iterCatch", "List String", lambda: lstr(hs(extract.find_def(ini, "process_iter"), 0, 1)), "process_iter: classes that drop the pid")
     F.try_add("childrenCatch", "List String", lambda: lstr(hs(fm()["children"], 0, 2)), "psutil.Process.children (non recursive)")
+    F.try_add("childrenRecCatch", "List String", lambda: lstr(hs(fm()["children"], 1, 2)), "psutil.Process.children (recursive branch)")
     F.try_add("parentCatch", "List String", lambda: lstr(hs(fm()["parent"], 0, 1)), "psutil.Process.parent")
+
+    def parents_catch():
+        """parents(): `proc = proc.parent()` inside the while loop, bare (-> []) or wrapped in one
+        `try … except (classes): break` (-> classes); the first `self.parent()` is never wrapped"""
+        fn = fm()["parents"]
+        h = handlers_of(fn)
+        if not h:
+            return []
+        if len(h) != 1:
+            raise NotRecognised("parents: %d except clauses" % len(h))
+        names, node = h[0]
+        body = [s for s in node.body if not (isinstance(s, ast.Expr) and isinstance(s.value, ast.Constant))]
+        if not (len(body) == 1 and isinstance(body[0], ast.Break)):
+            raise NotRecognised("parents: handler body is not `break`")
+        whiles = [n for n in fn.body if isinstance(n, ast.While)]
+        if len(whiles) != 1:
+            raise NotRecognised("parents: expected one while loop")
+        tries = [n for n in whiles[0].body if isinstance(n, ast.Try)]
+        if len(tries) != 1 or tries[0].orelse or tries[0].finalbody or len(tries[0].body) != 1 \
+                or ast.unparse(tries[0].body[0]) != "proc = proc.parent()":
+            raise NotRecognised("parents: the try does not wrap exactly `proc = proc.parent()`")
+        return names
+    F.try_add("parentsCatch", "List String", lambda: lstr(parents_catch()),
+              "psutil.Process.parents: classes whose handler ends the walk around proc.parent() ([] = no handler)")
 
     def init_clauses():
         h = handlers_of(fm()["_init"])
@@ -316,7 +342,65 @@ def fixed_worlds():
     ws.append({"target": T, "procs": [             # parent not listed / gone
         mk_proc(T, 99, 100, guess=True, fds=[[7, "infoStale"], [8, "stale"]], tids=[[T, True]]),
         mk_proc(110, 1, 10, long=True)]})
+    return ws + tree_worlds()
+
+
+def tree_worlds():
+    """family `tree`: deeper process trees for children(recursive=True) / parents() — a chain of
+    ancestors above the target, grandchildren and great-grandchildren below it, a stale descendant, a
+    descendant "older than the target" (PID reuse: dropped together with its own subtree), and a ppid
+    cycle through the target (recycled PIDs), which both walks must cut with their `seen` sets."""
+    T = 105
+    ws = []
+    ws.append({"target": T, "procs": [
+        mk_proc(2, 0, 5),
+        mk_proc(50, 2, 10),
+        mk_proc(101, 50, 50, long=True),
+        mk_proc(T, 101, 100, fds=[[0, "sock"], [1, "file"]]),
+        mk_proc(120, T, 150),
+        mk_proc(121, 120, 160),
+        mk_proc(122, T, 170),
+        mk_proc(123, 121, 180),
+        mk_proc(124, 122, 90),                    # older than the target: PID reused, not a descendant
+        mk_proc(125, 124, 190),                   # ... and so its child is never reached
+        mk_proc(126, 122, 200, stale=True),
+        mk_proc(140, 50, 20)]})
+    ws.append({"target": T, "procs": [             # cycle: 105 -> 121 -> 120 -> 105 (all started in the same tick)
+        mk_proc(3, 0, 5),
+        mk_proc(T, 121, 100),
+        mk_proc(120, T, 100),
+        mk_proc(121, 120, 100),
+        mk_proc(130, 121, 100)]})
     return ws
+
+
+N_TREE = 2
+
+
+def random_tree_world(rng):
+    """random forest over 5-9 PIDs; the target somewhere in the middle"""
+    pids = rng.sample([3, 7, 50, 101, 110, 120, 121, 122, 130, 131, 150], rng.randrange(5, 10))
+    T = 105
+    pids.sort()
+    cut = rng.randrange(1, len(pids))
+    above, below = pids[:cut], pids[cut:]
+    procs = []
+    prev = 0
+    ct = 5
+    for q in above:                                # a chain (sometimes a side branch) above the target
+        procs.append(mk_proc(q, prev if rng.random() < 0.8 else 0, ct, stale=rng.random() < 0.1))
+        prev = q
+        ct += rng.choice([0, 5, 10])
+    procs.append(mk_proc(T, rng.choice(above + ([below[-1]] if rng.random() < 0.2 else [])), ct + 10,
+                         fds=[[0, rng.choice(FD_KINDS[:3])]]))
+    tct = ct + 10
+    placed = [T]
+    for q in below:
+        par = rng.choice(placed)
+        procs.append(mk_proc(q, par, rng.choice([tct, tct + 5, tct + 20, tct - 5]), stale=rng.random() < 0.15))
+        placed.append(q)
+    rng.shuffle(procs)
+    return {"target": T, "procs": procs, "family": "tree"}
 
 
 def random_world(rng):
@@ -551,6 +635,14 @@ def do_call(ps, proc, call):
             return {"kind": "ok", "shape": ["iter", [[p.pid] + asdict_shape(p.info)[1:] for p in ls]]}
         elif m == "children":
             return {"kind": "ok", "shape": ["procs", [c.pid for c in proc.children()]]}
+        elif m == "children_recursive":
+            return {"kind": "ok", "shape": ["procs", [c.pid for c in proc.children(recursive=True)]]}
+        elif m == "parents":
+            return {"kind": "ok", "shape": ["procs", [c.pid for c in proc.parents()]]}
+        elif m == "connections":
+            with warnings.catch_warnings():
+                warnings.simplefilter("ignore", DeprecationWarning)
+                v = proc.connections()
         elif m == "pid":
             v = proc.pid
         else:
@@ -570,8 +662,10 @@ def attr_order(attrs):
 
 GETTERS_SKIP = {"pid"}
 DOUBLE_METHODS = ("exe", "cwd", "threads", "open_files", "memory_full_info", "net_connections", "children",
-                  "parent", "name", "cmdline", "memory_maps", "environ", "rlimit", "ppid", "is_running")
-EXTRA = ["is_running", "children", "parent", "rlimit"]
+                  "parent", "name", "cmdline", "memory_maps", "environ", "rlimit", "ppid", "is_running",
+                  "children_recursive", "parents", "connections")
+EXTRA = ["is_running", "children", "parent", "rlimit", "children_recursive", "parents", "connections"]
+TREE_METHODS = ("children", "children_recursive", "parent", "parents", "ppid")
 ASDICT_SETS = [
     ["pid", "name", "status", "ppid", "cmdline"],
     ["exe", "cwd", "num_fds", "memory_maps", "environ", "threads", "memory_full_info", "username", "cpu_times"],
@@ -644,6 +738,16 @@ def plan_family(plan):
 # ------------------------------------------------------------------------------ comparison
 
 GONE_NSP_EXEMPT = {"pid", "create_time", "is_running", "as_dict", "process_iter"}
+FINDING_PARENTS = "C03-parents-foreign-pid"
+
+
+def in_parents_region(inp, out, spec):
+    """region of the known finding: parents() raising a psutil error that carries the pid of another
+    listed process (an ancestor it was walking through) instead of the object's own pid"""
+    if inp["call"]["method"] != "parents" or out.get("kind") != "exc" or not spec.get("ok_any"):
+        return False
+    others = [p["pid"] for p in inp["world"]["procs"] if p["pid"] != inp["world"]["target"]]
+    return out.get("exc") in ("NoSuchProcess", "AccessDenied") and out.get("pid") in others and bool(inp["plan"].get("deny"))
 
 
 def line_for(call, plan, impl):
@@ -658,6 +762,7 @@ class Batch:
         self.res = res
         self.items = []
         self.lines = 0
+        self.known = set(f.get("id") for f in (ctx.findings or []))
 
     def add(self, bw, call, plan, out, trace, unknown, later=None):
         self.items.append((bw.spec, call, plan, out, trace, unknown, later))
@@ -681,11 +786,11 @@ class Batch:
             inp = {"world": spec, "call": call, "plan": plan}
             if "bad" in m:
                 raise InfraError("driver rejected %r: %s" % (lines[i], m))
-            judge(self.res, inp, out, trace, unknown, later, m)
+            judge(self.res, inp, out, trace, unknown, later, m, self.known)
         self.items = []
 
 
-def judge(res, inp, out, trace, unknown, later, m):
+def judge(res, inp, out, trace, unknown, later, m, known=()):
     call, plan = inp["call"], inp["plan"]
     fam = plan_family(plan)
     res.count("plan:" + fam)
@@ -697,15 +802,19 @@ def judge(res, inp, out, trace, unknown, later, m):
              sample={"call": call, "plan": plan, "impl": out, "trace": trace} if fam in ("deny+gone", "zombie") and len(trace) > 4 else None)
     spec = m["spec"]
     if not spec["ok"]:
+        fid = FINDING_PARENTS if (FINDING_PARENTS in known and in_parents_region(inp, out, spec)) else None
         res.disagree("spec", inp, out, m["model"], {"ok": "value or NoSuchProcess/ZombieProcess/AccessDenied(pid=%d)" % inp["world"]["target"]},
-                     note="%s under %s leaks %s" % (call["method"], json.dumps(plan), json.dumps(out)))
-        return
+                     note="%s under %s leaks %s" % (call["method"], json.dumps(plan), json.dumps(out)), finding=fid)
+        if fid is None:
+            return
+        # inside the region of the known finding: still require model == implementation below
+        res.known_seen[fid] = res.known_seen.get(fid, 0) + 1
     if spec.get("gone_nsp") is False:
         res.disagree("spec", inp, out, m["model"], {"gone": "NoSuchProcess(pid)"},
                      note="process gone before the call but %s did not raise NoSuchProcess" % call["method"])
         return
     lowest = inp["world"]["target"] == min(p["pid"] for p in inp["world"]["procs"])
-    if later is not None and call["method"] not in GONE_NSP_EXEMPT and not (call["method"] == "parent" and lowest):
+    if later is not None and call["method"] not in GONE_NSP_EXEMPT and not (call["method"] in ("parent", "parents") and lowest):
         if not (later["kind"] == "exc" and later["exc"] == "NoSuchProcess" and later["pid"] == inp["world"]["target"]) \
                 and not (call["method"] == "exe" and later["kind"] == "ok"):
             res.disagree("spec", dict(inp, later=True), later, None, {"gone": "NoSuchProcess(pid)"},
@@ -758,16 +867,30 @@ def correspond(ctx, res):
         res.notes.append("zombie/gone behaviour table differs from this kernel: %s" % bad[:5])
         res.disagree("model", {"live_kernel": True}, bad, None, None, note="behaviour table does not match the running kernel")
     worlds = fixed_worlds()
+    nfixed = len(worlds)
+    tree_idx = set(range(nfixed - N_TREE, nfixed))
     thorough = ctx.tier == "thorough" or ctx.budget_factor > 1
     nrand = ctx.n(3, 12)
     for _ in range(nrand):
         worlds.append(random_world(ctx.rng))
+    for _ in range(ctx.n(2, 8)):
+        tree_idx.add(len(worlds))
+        worlds.append(random_tree_world(ctx.rng))
     batch = Batch(ctx, res)
     total = 0
     for wi, spec in enumerate(worlds):
         bw = BuiltWorld(ps, spec)
         try:
-            calls = calls_for(ps, ctx.tier, all_attrs=(wi in (1, 2) or thorough))
+            if wi in tree_idx:
+                # family `tree`: the walks over other processes; every single fault, and every double
+                # fault on the small cyclic world (quick) / everywhere (thorough)
+                calls = [c for c in calls_for(ps, ctx.tier, all_attrs=False) if c["method"] in TREE_METHODS]
+                n = explore_world(ctx, res, bw, calls, thorough or wi == nfixed - 1, batch)
+                res.count("family:tree", n)
+                total += n
+                calls = []
+            else:
+                calls = calls_for(ps, ctx.tier, all_attrs=(wi in (1, 2) or thorough))
             doubles = thorough or wi == 0
             if not thorough and wi in (1, 2):
                 # quick tier: all double faults on the smallest world for every call, and on two
@@ -776,12 +899,14 @@ def correspond(ctx, res):
                 total += explore_world(ctx, res, bw, calls_d, True, batch)
                 doubles = False
                 calls = [c for c in calls if c not in calls_d]
-            total += explore_world(ctx, res, bw, calls, doubles, batch)
+            n = explore_world(ctx, res, bw, calls, doubles, batch)
+            res.count("family:flat", n)
+            total += n
         finally:
             bw.close()
         batch.flush()
     res.exhaustive = ("every single fault position (vanish, zombie, EACCES, EPERM) on the implementation's access trace of "
-                      "every public method on %d worlds%s" % (len(worlds), "; every deny-then-vanish/zombie, zombie-then-gone/deny pair" if thorough else "; every double fault on the smallest world, and for 15 methods on two richer worlds"))
+                      "every public method on %d worlds%s" % (len(worlds), "; every deny-then-vanish/zombie, zombie-then-gone/deny pair" if thorough else "; every double fault on the smallest world, for 18 methods on two richer worlds, and for the tree walks on the cyclic tree world"))
     res.extra["driver_lines"] = batch.lines
     res.extra["worlds"] = len(worlds)
 
@@ -838,7 +963,7 @@ def shrink(ctx, d):
             outs = ctx.driver().batch(lines)[1:]
             for (p, o, t), m in zip(runs, outs):
                 i2 = {"world": bw.spec, "call": call, "plan": p}
-                if _violates(i2, o, m):
+                if _violates(i2, o, m) and not in_parents_region(i2, o, m.get("spec", {})):
                     return dict(d, input=i2, impl=o, model=m.get("model"), spec=m.get("spec"),
                                 note="shrunk: %s under %s gives %s; access trace %s" % (call["method"], json.dumps(p), json.dumps(o), t))
         finally:
